@@ -223,6 +223,41 @@ def debug_rule(rule, c):
         im = nodes.Impl(c, it)
         path = im.self_adt()[0]
         adt = c.item(path)
+        if adt and adt.get("kind") == "Enum" and path.startswith("pest_typed::choices::"):
+            # ChoiceN: every arm renders its payload under its own variant's name (seed C18-8: every arm labelled `_0`)
+            b = c.body(im.methods.get("fmt", ""))
+            if b is None:
+                continue
+            vnames = [v["name"] for v in adt.get("variants", [])]
+            bad = []
+            arms = [a for n in walk(b["value"]) if n["k"] == "match" and n.get("src") == "normal" for a in n["arms"]]
+            seen = []
+            for a in arms:
+                pat = a["pat"]
+                while pat["k"] in ("ref", "deref"):
+                    pat = pat["p"]
+                if pat["k"] != "tstruct":
+                    continue
+                vn = pat["res"].get("path", "?").rsplit("::", 1)[-1]
+                if vn not in vnames:
+                    continue
+                seen.append(vn)
+                lits = {m["v"]["str"] for m in walk(a["body"]) if m["k"] == "lit" and "str" in (m.get("v") or {})}
+                others = lits & (set(vnames) - {vn})
+                used = {m["var"] for m in walk(a["body"]) if m["k"] == "local"}
+                bound = [q["var"] for q in pat.get("ps", []) if q.get("k") == "bind"]
+                if vn not in lits or others:
+                    bad.append("variant %s is rendered under the label %s" % (vn, sorted(others) or "(none)"))
+                if not bound or bound[0] not in used:
+                    bad.append("variant %s's payload is not rendered" % vn)
+            if sorted(seen) != sorted(vnames):
+                bad.append("arms %s do not cover the variants %s" % (seen, vnames))
+            key = path.rsplit("::", 1)[-1]
+            if bad:
+                rule.violate(key, "; ".join(sorted(set(bad))[:3]) + " — values in different alternatives render alike but compare unequal", im.loc)
+            else:
+                rule.inst(key, im.loc, "ok", {"variants": len(vnames)})
+            continue
         if not adt or adt.get("kind") != "Struct" or not path.startswith(("pest_typed::predefined_node::", "pest_typed::sequence::")):
             continue
         if "::unicode::" in path and not path.endswith("::LETTER"):
